@@ -171,7 +171,9 @@ func (g gen) key() string {
 
 func isASCII(k string) bool {
 	for i := 0; i < len(k); i++ {
-		if k[i] >= 0x7f || (k[i] >= 0x18 && k[i] < 0x20) { // PDFDocEncoding remaps 0x18..0x1f and >= 0x7f
+		// PDFDocEncoding remaps 0x18..0x1f and >= 0x7f; a backslash in a hex-literal key is unescaped
+		// again on reading (string codec, properties C12/C13) - not part of the tree logic
+		if k[i] >= 0x7f || (k[i] >= 0x18 && k[i] < 0x20) || k[i] == 0x5c {
 			return false
 		}
 	}
